@@ -3,57 +3,81 @@
    showsyntaxerror, showtraceback, _error_wrap, set_last_exc (hy/repl.py) and the running
    interpreter's code.InteractiveInterpreter.runsource, regenerated into Gen/StateReplTerm.v (tie T2)
    and run by the fragment semantics with compile / eval / output_fn / print / sys.excepthook /
-   mangle opaque and scripted by the inputs of a session (State/Repl.v).
+   mangle opaque and scripted by the inputs of a session (State/Repl.v: [one_pure]).
    [step] / [run_abstract] is the abstract machine (last_value, print flag, *1 *2 *3, *e). *)
-From HyV Require Import State.Repl State.ReplAbstract State.ReplSweep State.ReplProofs.
+From HyV Require Import State.Repl State.ReplAbstract State.ReplLift State.ReplSweep State.ReplProofs.
 
-(* PARTIAL LINK.  That the generated code implements [step] is established by computation on tables:
-   16 start states x 83 inputs (value None / not None, output_fn failing with 20 exception classes,
-   compile errors and run-time errors of 20 classes in either evaluation step), and all 820 sessions
-   of at most 3 inputs over a 9-letter alphabet.  Missing: the lift to ALL values and exception
-   objects (the code only moves values and tests `is None` / exception classes -- a parametricity
-   argument that is not proved here). *)
-Theorem C40_generated_code_implements_step_partial : sweep_single = true /\ sweep_sessions 3 = true.
-Proof. exact generated_code_implements_step_on_tables. Qed.
-Print Assumptions C40_generated_code_implements_step_partial.
+(* THE LINK.  One input: for every REPL state (all values of last_value, *1 *2 *3, *e, _hy_exc_info,
+   all other variables `rest`, all other heap objects `h0`, every log), every input (any result value,
+   any exception object, failing in either evaluation step), every output script and every class
+   matcher m in which SystemExit and non-Exception BaseExceptions are not Hy language errors:
+   running the GENERATED runsource ends -- no timeout, nothing outside the fragment -- returns what
+   [step] says (True / False / the escaping exception) and leaves exactly the state [step] computes,
+   touching nothing else.  Sessions: the same for any number of inputs.  The generated class table is
+   such a matcher. *)
+Theorem C40_generated_code_implements_machine :
+  (forall m out inp, sane m -> refines m out inp) /\
+  (forall m out, sane m -> forall inputs lv pf gv a b c e info rest h0 log,
+     exists gv' info' log',
+       let r' := run_abstract m out inputs (rs lv pf a b c e) in
+       run_inputs m out inputs (mkheap lv pf gv a b c e info rest h0, log) =
+       Some (mkheap (r_last r') (r_print r') gv' (r_1 r') (r_2 r') (r_3 r') (r_e r') info' rest h0, log')) /\
+  sane table.
+Proof.
+  split; [exact generated_code_implements_step|].
+  split; [intros m out S; exact (session_implements_machine m out S) | exact table_sane].
+Qed.
+Print Assumptions C40_generated_code_implements_machine.
+
+(* Hence, for a new REPL and ANY session: the generated code's run is observable and shows the
+   abstract machine's state. *)
+Theorem C40_session_observed : forall out inputs,
+  exists h log, run_session inputs out = Some (h, log) /\ observe h = Some (run_abstract table out inputs initial).
+Proof. exact session_observed. Qed.
+Print Assumptions C40_session_observed.
 
 (* "asks for more input exactly while the accumulated text is incomplete": runsource returns True
-   iff the compiler asked for more; then nothing changes.  For every input, state and output script. *)
-Theorem C40_more_input_iff_incomplete : forall out inp r,
-  (snd (step out inp r) = Some true <-> inp = IIncomplete) /\ fst (step out IIncomplete r) = r.
+   iff the compiler asked for more; then nothing changes.  For every input, state, matcher and script. *)
+Theorem C40_more_input_iff_incomplete : forall m out inp r,
+  (snd (step m out inp r) = inl true <-> inp = IIncomplete) /\ fst (step m out IIncomplete r) = r.
 Proof. intros. split; [apply more_iff_incomplete | apply incomplete_changes_nothing]. Qed.
 Print Assumptions C40_more_input_iff_incomplete.
 
 (* After ANY history of inputs -- any length, any values, failing and incomplete inputs interleaved
    in any way, any output function: *1 *2 *3 are the results of the latest three inputs that were
    evaluated to a value (None included), and *e is the exception of the latest input that failed
-   visibly (or none yet). *)
-Theorem C40_history_vars : forall out inputs,
-  slots_are (run_abstract out inputs initial) (results inputs) /\
-  r_e (run_abstract out inputs initial) = latest_failure out inputs None.
+   visibly (None: none yet). *)
+Theorem C40_history_vars : forall m out inputs,
+  slots_are (run_abstract m out inputs initial) (results inputs) /\
+  r_e (run_abstract m out inputs initial) = latest_failure m out inputs VNone.
 Proof. intros. split; [apply history_vars | apply star_e_is_latest_failure]. Qed.
 Print Assumptions C40_history_vars.
 
 (* A failed or incomplete input leaves *1 *2 *3 exactly as they were; hence, when the evaluated
    inputs produced pairwise different non-None results, no result ever occupies two of them --
    "a failed input never makes two of them repeat one input's result", for ALL histories. *)
-Theorem C40_no_repeat : forall out,
+Theorem C40_no_repeat : forall m out,
   (forall inp r, evaluated inp = None ->
-     let r' := fst (step out inp r) in r_1 r' = r_1 r /\ r_2 r' = r_2 r /\ r_3 r' = r_3 r) /\
+     let r' := fst (step m out inp r) in r_1 r' = r_1 r /\ r_2 r' = r_2 r /\ r_3 r' = r_3 r) /\
   (forall inputs, NoDup (results inputs) -> ~ In VNone (results inputs) ->
-     no_repeat (run_abstract out inputs initial)).
+     no_repeat (run_abstract m out inputs initial)).
 Proof.
-  intros out. split; [intros; apply failed_input_leaves_slots; assumption|].
+  intros m out. split; [intros; apply failed_input_leaves_slots; assumption|].
   intros. apply no_repeat_any_history; assumption.
 Qed.
 Print Assumptions C40_no_repeat.
 
+(* Not covered by a theorem (judged by the oracle on the real REPL only): what is printed, and
+   push()'s line buffering. *)
+
 (* regression sessions on the GENERATED code ([regression_run], [regression_run2] in
    State/ReplProofs.v): inputs `1`, `(/ 1 0)` -- which made *1 = *2 = 1 before hy commit 7e4d2e4 -- now
    end with *1 = 1, *2 = *3 = None, *e = the ZeroDivisionError; an 8-input session mixing values, None,
-   lexer / macro-expansion / run-time errors and an incomplete line ends with *1 *2 *3 = 3, None, 2. *)
-Theorem C40_regressions : regression_run /\ regression_run2.
-Proof. exact (conj regression_on_generated_code regression2_on_generated_code). Qed.
+   lexer / macro-expansion / run-time errors and an incomplete line ends with *1 *2 *3 = 3, None, 2.
+   [sweep_pairs]: all pairs of 84 tabulated inputs, by plain computation (the table that names a
+   failing configuration if the link ever breaks). *)
+Theorem C40_regressions : regression_run /\ regression_run2 /\ sweep_pairs = true.
+Proof. exact (conj regression_on_generated_code (conj regression2_on_generated_code cross_check)). Qed.
 Print Assumptions C40_regressions.
 
 (* [mixed_history_meets]: an 8-input history, half of it failing, meets the hypotheses of C40_no_repeat
